@@ -37,6 +37,15 @@ def common_helpers(lib):
     enc = [f for f in lib.fn_list if uses(f, "raw::common_inputs::COMMON_INPUTS'") or uses(f, 'raw::common_inputs::COMMON_INPUTS"')]
     dec = [f for f in lib.fn_list if uses(f, 'raw::common_inputs::COMMON_INPUTS_INV')]
     enc = [f for f in enc if f not in dec]
+
+    def owner(f):
+        # a closure inside the helper (`idx.checked_sub(1).map(|i| INV[i])`) belongs to the helper
+        q = f.path
+        while '::{closure' in q:
+            q = q[:q.rindex('::{closure')]
+        return lib.fns.get(q, f)
+    enc = list({owner(f).path: owner(f) for f in enc}.values())
+    dec = list({owner(f).path: owner(f) for f in dec}.values())
     return (enc[0] if len(enc) == 1 else None), (dec[0] if len(dec) == 1 else None)
 
 
@@ -77,9 +86,8 @@ def common_input_helpers(ctx, R):
             good['fits'] = norm(rv) == norm(valexpr) and ok_val and ok_max
     ctx.check(R, good.get('over') and good.get('fits'), 'common-idx', 'the common-input index must be COMMON_INPUTS[b] + 1 when that fits the field and 0 otherwise (%s)' % good, fn=enc)
     good = {}
-    for p in explore(dec, max_visits=1):
-        if p.end != 'return':
-            continue
+    import vsplit
+    for p in vsplit.vpaths(lib, dec):
         rv = p.ret()
         d = [x for x in p.decisions if x[2][0] == 'bin' and x[2][1] in ('Eq', 'Ne') and x[2][3] == ('const', 0)]
         if not d:
@@ -263,9 +271,8 @@ def state_and_sizes_bits(ctx):
     if f is not None:
         env = [(('field', ('param', f.local_name(1), 1), '0'), old)] + const_env(lib)
         seen = {}
-        for p in explore(f, max_visits=1):
-            if p.end != 'return':
-                continue
+        import vsplit
+        for p in vsplit.vpaths(lib, f):
             d = [x for x in p.decisions if x[2][0] == 'bin' and x[2][1] in ('Eq', 'Ne') and x[2][3] == ('const', 0)]
             if not d:
                 continue
@@ -294,9 +301,24 @@ def state_and_sizes_bits(ctx):
             if not byte:
                 continue
             b = ev(e, [(byte[0], var_bits('v', 8))] + const_env(lib), 8)
-            two = b == [('v', 'v', 6), ('v', 'v', 7)] + [0] * 6
-            seen[rv[1].rsplit('::', 1)[-1]] = (val, two, byte[0][2])
-        ok = seen.get('OneTransNext', (None,))[0] == 3 and seen.get('OneTrans', (None,))[0] == 2 and isinstance(seen.get('AnyTrans', (None,))[0], tuple) and all(v[1] for v in seen.values())
+            # which bits of the state byte does `expr == val` pin down?  (shifted tag: v >> 6 == 3; masked tag: v & 0xC0 == 0xC0)
+            pins = None
+            if b is not None and isinstance(val, int):
+                pins = {}
+                for i, x in enumerate(b):
+                    want = (val >> i) & 1
+                    if isinstance(x, tuple) and x[0] == 'v':
+                        pins[x[2]] = want
+                    elif x in (0, 1):
+                        if x != want:
+                            pins = 'never'
+                            break
+                    else:
+                        pins = None
+                        break
+            two = b is not None and sorted(x[2] for x in b if isinstance(x, tuple)) == [6, 7] and all(isinstance(x, tuple) or x == 0 for x in b)
+            seen[rv[1].rsplit('::', 1)[-1]] = (pins if isinstance(val, int) else val, two, byte[0][2])
+        ok = seen.get('OneTransNext', (None,))[0] == {6: 1, 7: 1} and seen.get('OneTrans', (None,))[0] == {6: 0, 7: 1} and isinstance(seen.get('AnyTrans', (None,))[0], tuple) and all(v[1] for v in seen.values())
         ctx.check(R2, ok, 'dispatch', 'the decoder must dispatch on the top two bits of the state byte: 11 -> one-trans-next, 10 -> one-trans, else any-trans (%s)' % {k: v[0] for k, v in seen.items()}, fn=f)
         ok_addr = all(v[2] == ('param', f.local_name(2), 2) for v in seen.values())
         ctx.check(R2, ok_addr, 'dispatch-byte', 'the state byte must be the byte AT the node address', fn=f)
@@ -450,9 +472,11 @@ def packing(ctx):
 def form_selection(ctx):
     R = ctx.rule('R09.6', 'form selection: nothing for the empty final node; any-trans iff ntrans != 1 or final; one-trans-next iff target = previous node and zero output', floor=10)
     lib = ctx.lib
-    f = lib.fn("raw::node::Node::<'f>::compile")
+    # by role: the function that chooses among the node encoders
+    cands = [g for g in lib.fn_list if g.kind != 'Closure' and len({g.callee(t) for _, t in g.calls() if (g.callee(t) or '').endswith('::compile') and 'raw::node::State' in (g.callee(t) or '')}) >= 2]
+    f = cands[0] if len(cands) == 1 else None
     if f is None:
-        ctx.missing(R, 'anchor:selector', 'form selector not found')
+        ctx.missing(R, 'anchor:selector', 'form selector (the function calling the node encoders) not found: %s' % [g.path for g in cands])
         return
 
     def classify(e):
@@ -464,8 +488,12 @@ def form_selection(ctx):
             return 'Z'
         if e[0] == 'bin' and e[1] in ('Ne', 'Eq') and layout.ntrans_expr(e[2]) and e[3] == ('const', 1):
             return 'N1' if e[1] == 'Ne' else '!N1'
-        if e[0] == 'bin' and e[1] == 'Eq' and any(x[0] == 'field' and x[2] == 'addr' for x in walk(e[2])) and e[3][0] == 'param':
-            return 'A'
+        if e[0] == 'bin' and e[1] in ('Eq', 'Ne') and any(x[0] == 'field' and x[2] == 'addr' for x in walk(e[2])) and e[3][0] == 'param':
+            return 'A' if e[1] == 'Eq' else '!A'
+        if e[0] == 'un' and e[1] == 'Not':
+            k = classify(e[2])
+            if k is not None:
+                return k[1:] if k.startswith('!') else '!' + k
         if is_call(e, 'Output::is_zero') and any(x[0] == 'field' and x[2] == 'out' for x in walk(e[2][0])):
             return 'OZ'
         if e[0] == 'bin' and e[1] == 'Le' and e[3] == ('const', 256):
@@ -480,8 +508,8 @@ def form_selection(ctx):
             k = classify(e)
             if k is None:
                 return None
-            if k == '!N1':
-                return 1 - asg['N1']
+            if k.startswith('!'):
+                return 1 - asg[k[1:]]
             return asg[k]
         outs = set()
         forks = 0
@@ -519,6 +547,16 @@ def form_selection(ctx):
                 ctx.check(R, ok, 'args:any', 'any-trans must be given (node address, node)', fn=f)
 
 
+_PVC = {}
+
+
+def _PV(lib):
+    from absint import Prover
+    if id(lib) not in _PVC:
+        _PVC[id(lib)] = Prover(lib)
+    return _PVC[id(lib)]
+
+
 def delta_addressing(ctx):
     R = ctx.rule('R09.7', 'delta addressing: delta = node start - target, 0 <-> the empty final node, same expression for width and value; reader subtracts from the node start', floor=3)
     lib = ctx.lib
@@ -529,24 +567,42 @@ def delta_addressing(ctx):
             ctx.missing(R, 'anchor:' + name, name + ' not found')
             continue
         seen = {}
-        for p in explore(f, max_visits=1):
-            if p.end != 'return':
-                continue
-            d = [x for x in p.decisions if x[2][0] == 'bin' and x[2][1] in ('Eq', 'Ne') and x[2][3] in (('citem', 'raw::EMPTY_ADDRESS'), ('const', 0))]
-            if not d:
-                continue
-            isz = (d[-1][2][1] == 'Eq') == bool(d[-1][3])
-            arg = None
-            for (k, bid, callee, args, t) in path_calls(p):
-                if isinstance(callee, str) and (callee.endswith('pack_uint_in') or callee.endswith('bytes::pack_size')):
-                    a = args[1] if callee.endswith('pack_uint_in') else args[0]
-                    while a[0] == 'cast':
-                        a = a[1]
-                    arg = a
-            seen[isz] = (arg, d[-1][2][2])
+        from sym import subst, simplify_proj
+        na, ta = (1, 2) if name.endswith('size') else (2, 3)
+
+        def scan(g, m):
+            """paths of g (f itself, or a private helper computing the delta from f's arguments m: helper param -> f expression)"""
+            for p in explore(g, max_visits=1):
+                if p.end != 'return':
+                    continue
+                d = [x for x in p.decisions if x[2][0] == 'bin' and x[2][1] in ('Eq', 'Ne') and x[2][3] in (('citem', 'raw::EMPTY_ADDRESS'), ('const', 0))]
+                if not d:
+                    continue
+                isz = (d[-1][2][1] == 'Eq') == bool(d[-1][3])
+                arg = None
+                if g is f:
+                    for (k, bid, callee, args, t) in path_calls(p, expand=False):
+                        if isinstance(callee, str) and (callee.endswith('pack_uint_in') or callee.endswith('bytes::pack_size')):
+                            arg = args[1] if callee.endswith('pack_uint_in') else args[0]
+                else:
+                    arg = p.ret()
+                if arg is None:
+                    continue
+                arg = simplify_proj(subst(arg, m)) if m else arg
+                cmp_ = simplify_proj(subst(d[-1][2][2], m)) if m else d[-1][2][2]
+                while arg[0] == 'cast':
+                    arg = arg[1]
+                seen[isz] = (arg, cmp_)
+        scan(f, None)
+        if not seen:
+            for p in explore(f, max_visits=1):
+                for (k, bid, callee, args, t) in path_calls(p, expand=False):
+                    if callee in lib.fns and callee.startswith('raw::node::') and lib.fns[callee].local_ty(0) == 'usize':
+                        scan(lib.fns[callee], {i + 1: a for i, a in enumerate(args)})
+                if seen:
+                    break
         okz = seen.get(True, (None,))[0] in (('citem', 'raw::EMPTY_ADDRESS'), ('const', 0)) and seen.get(True, (None, None))[1] == ('param', f.local_name(2 if name.endswith('size') else 3), 2 if name.endswith('size') else 3)
         nz = seen.get(False, (None,))[0]
-        na, ta = (1, 2) if name.endswith('size') else (2, 3)
         oknz = nz is not None and nz[0] == 'bin' and nz[1] == 'Sub' and nz[2] == ('param', f.local_name(na), na) and nz[3] == ('param', f.local_name(ta), ta)
         ctx.check(R, okz and oknz, name.rsplit('::', 1)[-1], 'the stored delta must be 0 for the empty final node and (node start - target address) otherwise: %s' % {k: fmt(v[0])[:40] for k, v in seen.items()}, fn=f)
     f = lib.fn('raw::node::pack_delta')
